@@ -370,6 +370,55 @@ func C20(c *fw.Ctx) {
 			}
 		}
 	}
+	// whatever characters a line holds, the session goes on: every sequence of up to three items of a
+	// lexical alphabet (every printable ASCII character; for length three the characters that begin or
+	// end a token class) as a line of its own, followed by the probe line, which must be answered as in a
+	// fresh session
+	{
+		var all []string
+		for r := rune(0x20); r <= 0x7e; r++ {
+			all = append(all, string(r))
+		}
+		special := []string{"\"", "\\", "/", "*", "1", ".", "a", " ", "\t", "\r", "#", "(", "{", ";", "=", "&", "-", "\u09e7", "\u0995", "\u09cd", "\u200d"}
+		probe := model.BiLen + "([1, 2]);"
+		var lines []string
+		for _, a := range all {
+			lines = append(lines, a)
+			for _, b := range all {
+				lines = append(lines, a+b)
+			}
+		}
+		for _, a := range special {
+			for _, b := range special {
+				for _, d := range special {
+					lines = append(lines, a+b+d)
+				}
+			}
+		}
+		for _, ln := range lines {
+			if !c.Mine() {
+				continue
+			}
+			session := ln + "\n" + probe + "\n"
+			o := h.RunRepl(session, h.Opts{Fuel: 3_000_000})
+			c.Eval(session, true)
+			c.R.States++
+			c.R.Transitions++
+			base := fw.Replay{Mode: "repl", Program: session, CLI: true, InStdout: o.Stdout, InStderr: o.Stderr, InStatus: o.Status}
+			if abnormal(c, o, "repl", session, base) {
+				continue
+			}
+			parts, ok := splitPrompts(o.Stdout)
+			if !ok || len(parts) != 3 || parts[1] != "2\n" || parts[2] != "" || o.Status != 0 {
+				r := base
+				r.Sig = "C20|session-ends-or-later-line-altered|after-short-line"
+				r.What = "after a line of up to three characters the next line is not answered as in a fresh session"
+				r.Expected = "three prompts, the second line answered 2, status 0"
+				r.Observed = fmt.Sprintf("stdout %q status %d stderr %q", trunc(o.Stdout, 200), o.Status, trunc(o.Stderr, 200))
+				c.Violate(r)
+			}
+		}
+	}
 	c.Sample(map[string]interface{}{"session": []string{pool[11], pool[1], pool[0]}, "expected_stdout": ">> >> 3\n>> 3\n>> "})
 }
 
